@@ -370,3 +370,49 @@ def path_decision_table(cfg, atom_texts):
             if consistent:
                 table.setdefault(vals, set()).add(tt_eval(rexpr, env))
     return table
+
+
+def dispatch_table(expr, selector):
+    """{constant: text of the chosen value, '<else>': ...} for an expression that picks a value by a selector:
+    `A if sel == 'x' else B`, `{'x': A, 'y': B}[sel]`, `{'x': A}.get(sel, B)` (nested conditionals are followed).
+    None when the expression is not of that kind."""
+    if isinstance(expr, ast.IfExp):
+        at = atoms(expr.test, True)
+        if len(at) != 1:
+            return None
+        (t, pol), = at
+        const = None
+        for pat in ("%s == " + selector, selector + " == %s"):
+            pass
+        import re
+
+        m = re.fullmatch(r"(.+) == (.+)", t)
+        if not m:
+            return None
+        a, b = m.group(1), m.group(2)
+        other = a if b == selector else (b if a == selector else None)
+        if other is None:
+            return None
+        try:
+            const = ast.literal_eval(other)
+        except Exception:
+            return None
+        yes, no = (expr.body, expr.orelse) if pol else (expr.orelse, expr.body)
+        out = {const: u(yes)}
+        rest = dispatch_table(no, selector)
+        if rest is None:
+            out["<else>"] = u(no)
+        else:
+            for k, v in rest.items():
+                out.setdefault(k, v)
+        return out
+    if isinstance(expr, ast.Subscript) and isinstance(expr.value, ast.Dict) and u(expr.slice) == selector:
+        if all(isinstance(k, ast.Constant) for k in expr.value.keys):
+            return {k.value: u(v) for k, v in zip(expr.value.keys, expr.value.values)}
+    if isinstance(expr, ast.Call) and isinstance(expr.func, ast.Attribute) and expr.func.attr == "get" and isinstance(expr.func.value, ast.Dict) and expr.args and u(expr.args[0]) == selector:
+        d = expr.func.value
+        if all(isinstance(k, ast.Constant) for k in d.keys):
+            out = {k.value: u(v) for k, v in zip(d.keys, d.values)}
+            out["<else>"] = u(expr.args[1]) if len(expr.args) > 1 else "None"
+            return out
+    return None
